@@ -1,4 +1,5 @@
 import Aurora.Lemmas.GcEvict
+import Aurora.Lemmas.GcWindow
 import Aurora.Model.NodeLite
 /-!
 # C12 — Garbage collection never deletes pinned or uploaded chunks
@@ -9,7 +10,8 @@ composition `Aurora/Model/NodeLite.lean` (`gc` feeds `gcEvict` with the pyramids
 `ChunkPyramid.getUnRepeatChunk`, i.e. the real chunkinfo), both tied to the real node by the C12
 correspondence run.
 
-The code VIOLATES the property in four designed-in ways (each confirmed on the real code by a
+The code VIOLATES the property in four designed-in ways and in one race (trigger 5,
+`C12_counterexample_pin_before_commit`) (each confirmed on the real code by a
 deterministic history, see the counterexample theorems and `notes/C12.md`).  Proved here, for all
 states / pyramids (no bound):
 
@@ -19,7 +21,11 @@ states / pyramids (no bound):
   is never deleted unless it is listed in the pyramid of an evicted (cached) file;
 * under the guard "no listed chunk and no candidate root has a pin entry" the run leaves the pin
   index untouched and keeps every pinned chunk (`C12_gc_pin_untouched_partial`);
-* the unguarded statement is false (`C12_gc_pin_untouched_counterexample`, + three more triggers).
+* the unguarded statement is false (`C12_gc_pin_untouched_counterexample`, + three more triggers);
+* the window between candidate selection and the deletion callback: a candidate that is pinned (or
+  touched in any way that logs its root as dirty) after the run entered `DelFile` for it and before the
+  callback takes `batchMu` is skipped, pins and chunks untouched (`C12_gc_recheck_protects_racing_pin`,
+  `C12_gc_recheck_skips_dirty`); the check has to be where it is (`C12_hoisted_check_counterexample`).
 -/
 namespace Aurora.Localstore
 
@@ -164,6 +170,68 @@ theorem C12_gc_pin_untouched_partial (s : State) (pyr : Addr → Option (List (A
     have := hroot e he
     rw [hea] at this; simp [this] at hp
 
+/-! ### the window between candidate selection and the deletion callback (`Model/GcWindow.lean`) -/
+
+/-- The candidate-by-candidate model refines lstore-a's one-step `gcEvict`: if no operation runs
+    between the candidates, stepping through all of them (`gcSteps`: `gcEvictOne` for each, with the
+    pyramid `pyr` hands over) and finishing (`gcFinish`) gives exactly the state, the output and the
+    driver writes of `gcEvict` — so `C12_gcEvict_db`, `C12_gc_deletes_only_listed` and
+    `C12_gc_pin_untouched_partial` hold for every run of the window model in which nothing races. -/
+theorem C12_gc_window_refines_gcEvict (s : State) (pyr : Addr → Option (List (Addr × Nat)))
+    (hrun : s.gcRunning = true) :
+    (gcFinish (gcSteps pyr (GcRun.start s) s.cands)).st = (gcEvict s pyr).st ∧
+    (gcFinish (gcSteps pyr (GcRun.start s) s.cands)).out = (gcEvict s pyr).out ∧
+    (gcFinish (gcSteps pyr (GcRun.start s) s.cands)).writes = (gcEvict s pyr).writes :=
+  gcSteps_finish_eq_gcEvict s pyr hrun
+
+/-- every `Set` executed while a run is in progress logs its addresses as dirty (and the run stays
+    in progress) -/
+theorem C12_set_logs_dirty (s : State) (mode : SetMode) (root : Option Addr) (addrs : List Addr)
+    (hrun : s.gcRunning = true) :
+    (set s mode root addrs).st.dirty = s.dirty ++ addrs ∧ (set s mode root addrs).st.gcRunning = true := by
+  simp [set, finish, hrun]
+
+/-- The re-check of the dirty addresses inside the deletion callback: a candidate whose root is in
+    the dirty list AT THE TIME THE CALLBACK RUNS is passed over — nothing is written, directly or
+    into the run's batch, and chunkinfo is told not to drop the file (`false`) — whatever pyramid
+    `DelFile` hands over. -/
+theorem C12_gc_recheck_skips_dirty (r : GcRun) (e : GcKey × Nat) (pyr : Option (List (Addr × Nat)))
+    (hd : e.1.addr ∈ r.st.dirty) :
+    (gcEvictOne r e pyr).2 = false ∧ (gcEvictOne r e pyr).1.st = r.st ∧
+    (gcEvictOne r e pyr).1.batch = r.batch ∧ (gcEvictOne r e pyr).1.log = r.log ∧
+    (gcEvictOne r e pyr).1.recycled = r.recycled ∧ (gcEvictOne r e pyr).1.n = r.n := by
+  cases pyr with
+  | none => simp [gcEvictOne, GcRun.skip]
+  | some chunks => simp [gcEvictOne, GcRun.skip, hd]
+
+/-- **A candidate pinned during the window is skipped by the eviction; pins untouched.**
+    `r` is a run in progress that has picked candidate `e` and entered `DelFile` for it; before the
+    deletion callback takes `batchMu`, a `Set(ModeSetPin)` that includes the candidate's root address
+    (what `POST /pins/{ref}` does for every chunk of the file, the root among them) runs to completion.
+    Then the callback's re-check finds the root dirty: the candidate is not evicted, the persisted state
+    stays exactly as the pin left it (every pin counter, every chunk), the run's batch gets no deletion.
+    If that was the run's only candidate, the committed run changes nothing but `gcSize`. -/
+theorem C12_gc_recheck_protects_racing_pin (r : GcRun) (e : GcKey × Nat) (pyr : Option (List (Addr × Nat)))
+    (root : Option Addr) (addrs : List Addr) (hrun : r.st.gcRunning = true) (hmem : e.1.addr ∈ addrs) :
+    let pinned := (set r.st .pin root addrs).st
+    let r' := (gcEvictOne { r with st := pinned } e pyr)
+    r'.2 = false ∧ r'.1.st.db = pinned.db ∧ r'.1.batch = r.batch ∧ r'.1.log = r.log ∧
+    r'.1.recycled = r.recycled ∧
+    (r.batch = [] → r.recycled = [] →
+      (gcFinish r'.1).st.db.pin = pinned.db.pin ∧ (gcFinish r'.1).st.db.data = pinned.db.data) := by
+  intro pinned r'
+  have hd : e.1.addr ∈ ({ r with st := pinned } : GcRun).st.dirty := by
+    show e.1.addr ∈ (set r.st .pin root addrs).st.dirty
+    rw [(C12_set_logs_dirty r.st .pin root addrs hrun).1]
+    exact List.mem_append.mpr (Or.inr hmem)
+  obtain ⟨h1, h2, h3, h4, h5, _⟩ := C12_gc_recheck_skips_dirty { r with st := pinned } e pyr hd
+  refine ⟨h1, by rw [h2], h3, h4, h5, ?_⟩
+  intro hb hr
+  have hb' : r'.1.batch = [] := by rw [h3]; exact hb
+  have hr' : r'.1.recycled = [] := by rw [h5]; exact hr
+  have hst : r'.1.st = pinned := h2
+  simp [gcFinish, hb', hr', hst, applyBatch, applyW]
+
 end Aurora.Localstore
 
 namespace Aurora.NodeLite
@@ -257,6 +325,82 @@ def trigger4 : State :=
 theorem C12_counterexample_cached_then_uploaded :
     (trigger4.ls.db.gc.map (·.2), trigger4.ls.db.pin.map (·.2), trigger4.pinned) = ([4], [1, 1, 1, 1], [1]) ∧
     ((gc trigger4 0).1.ls.db.pin, stored (gc trigger4 0).1 2, (gc trigger4 0).1.pinned) = ([], false, [1]) := by
+  decide
+
+/-! ### a racing pin of the candidate: non-vacuity of `C12_gc_recheck_protects_racing_pin`, and what
+the re-check is needed for -/
+
+/-- file of the race examples: root 10, data chunks [1, 2], cached completely from the peer -/
+def raceFile : FileS := { root := 10, subs := [[1, 2]], hash := [10, 11, 12] }
+
+def raceCached : State :=
+  [10, 11, 12, 1, 2].foldl (fun s a => nsGet s raceFile a)
+    (findPyramid { files := [("x/AB", { fs := raceFile, atP := true })] } raceFile)
+
+/-- the window: capacity 0, candidates selected (the file is the only one); `.1` = as the run entered
+    `DelFile`, `.2` = after `POST /pins` of the candidate ran to completion there -/
+def raceWindow : State × State :=
+  let s0 := { raceCached with ls := { raceCached.ls with capacity := 0 } }
+  let w := { s0 with ls := (Aurora.Localstore.gcSelect s0.ls).st }
+  (w, (apiPin w raceFile).1)
+
+/-- The hypotheses of `C12_gc_recheck_protects_racing_pin` are satisfiable on a reachable history
+    (regression case `fix-race-pin-candidate`): the run is in progress, the file is its candidate, the
+    pin's `Set` calls include the root; and the whole operation `gcr 0 x/AB pin x/AB` of the node-lite
+    model keeps all five pin entries and all five chunks. -/
+theorem C12_racing_pin_example :
+    raceWindow.1.ls.gcRunning = true ∧ raceWindow.1.ls.cands.map (·.1.addr) = [10] ∧
+    raceWindow.1.ls.dirty = [] ∧ raceWindow.2.ls.dirty.contains 10 = true ∧
+    (let r := gcRace raceCached 0 ([10], fun w => apiPin w raceFile)
+     r.2.2 = some 201 ∧ r.1.ls.db.pin.map (·.2) = [1, 1, 1, 1, 1] ∧
+     [1, 2, 10, 11, 12].all (stored r.1) = true ∧ r.1.pinned = [10]) := by decide
+
+/-- Why the check has to be INSIDE the callback: with the dirty list read before the window (empty
+    here — the pin has not happened yet) and no re-check, the same interleaving evicts the file: all
+    pin entries and all chunks of the just pinned file are deleted.  (`gcEvictOneHoisted` is not the
+    code; the node-lite model uses `gcEvictOne`, so a tree in which the check is moved out of the
+    callback diverges from the model on `gcr 0 x/AB pin x/AB`.) -/
+theorem C12_hoisted_check_counterexample :
+    let w := raceWindow
+    let e := w.1.ls.cands.headD (⟨0, 0, 0⟩, 0)
+    let pyr := some (getUnRepeatChunk w.2.cp raceFile)
+    let run := Aurora.Localstore.GcRun.start w.2.ls
+    -- the code: skipped, pins and chunks as the pin left them
+    (Aurora.Localstore.gcEvictOne run e pyr).2 = false ∧
+    (Aurora.Localstore.gcFinish (Aurora.Localstore.gcEvictOne run e pyr).1).st.db.pin.map (·.2) = [1, 1, 1, 1, 1] ∧
+    -- check hoisted out of the callback: evicted
+    (Aurora.Localstore.gcEvictOneHoisted w.1.ls.dirty run e pyr).2 = true ∧
+    (Aurora.Localstore.gcFinish (Aurora.Localstore.gcEvictOneHoisted w.1.ls.dirty run e pyr).1).st.db.pin = [] ∧
+    (Aurora.Localstore.gcFinish (Aurora.Localstore.gcEvictOneHoisted w.1.ls.dirty run e pyr).1).st.db.data.map (·.1) = [] := by
+  decide
+
+/-- history of trigger 5: two single-chunk files cached from the peer (pyramid exchange brings the
+    data chunk along): w = root 1, data chunk 2; x = root 5, data chunk 6; they share the manifest
+    node chunk 4 -/
+def trigger5 : State :=
+  let fw : FileInfo := { fs := { root := 1, subs := [[2]], hash := [1, 2, 3, 4] }, atP := true }
+  let fx : FileInfo := { fs := { root := 5, subs := [[6]], hash := [5, 6, 7, 4] }, atP := true }
+  findPyramid (findPyramid { files := [("w/c", fw), ("x/a", fx)] } fw.fs) fx.fs
+
+/-- Trigger 5 (confirmed on the real code, regression case `fix-race-pin-evicted-before-commit`):
+    the run collects all deletions in ONE batch committed after the last candidate.  `POST /pins` of
+    file w arriving while the run is in `DelFile` for the NEXT candidate x — after w's callback has
+    decided w's deletions, before the commit — succeeds (201), its pin entries exist afterwards and
+    the reference is listed, but the commit deletes w's chunks: pin counters positive, chunks gone.
+    The dirty re-check cannot help: w's callback is over. -/
+theorem C12_counterexample_pin_before_commit :
+    let fw : FileS := { root := 1, subs := [[2]], hash := [1, 2, 3, 4] }
+    let r := gcRace trigger5 0 ([1, 5], fun w => apiPin w fw)
+    trigger5.ls.db.gc.map (·.1.addr) = [1, 5] ∧ r.2.2 = some 201 ∧
+    [1, 2, 3].map (pinCount r.1) = [1, 1, 1] ∧ [1, 2, 3].map (stored r.1) = [false, false, false] ∧
+    r.1.pinned = [1] := by decide
+
+/-- without a racing operation firing, `gcr` is `gc` (here: on the four trigger histories) -/
+theorem C12_gcRace_unfired_eq_gc :
+    [trigger1, trigger2, trigger3.2, trigger4].all (fun s =>
+      let a := gcRace s 0 ([999], fun w => (w, 0))
+      let b := gc s 0
+      a.2.2 == none && a.2.1 == b.2 && a.1.ls.db == b.1.ls.db && a.1.cp == b.1.cp && a.1.ci == b.1.ci) = true := by
   decide
 
 end Aurora.NodeLite
